@@ -66,8 +66,11 @@ def World.get (w : World) (h : Nat) : Option Handle :=
   | some (some r) => some r
   | _ => none
 
+/-- the pool padded with empty slots up to length `n` -/
+def poolPad (p : List (Option Handle)) (n : Nat) : List (Option Handle) := p ++ List.replicate (n - p.length) none
+
 def poolSet (p : List (Option Handle)) (i : Nat) (v : Option Handle) : List (Option Handle) :=
-  if i < p.length then p.set i v else p ++ List.replicate (i - p.length) none ++ [v]
+  (poolPad p (i + 1)).set i v
 
 def World.put (w : World) (hp : Heap) (h : Nat) (v : Option Handle) : World :=
   { w with heap := hp, pool := poolSet w.pool h v }
